@@ -6,6 +6,7 @@ import GdVerif.Run.Settings
 import GdVerif.Run.Views
 import GdVerif.Run.Games
 import GdVerif.Run.IdCheck
+import GdVerif.Run.Real
 import GdVerif.Run.Quake
 import GdVerif.Run.GenQuake
 import GdVerif.Run.Unreal2
@@ -16,7 +17,7 @@ import GdVerif.Run.GenUnreal2
 -/
 open Gd Gd.Run
 
-def allEntries : List (String × (List String → String)) := readerEntries ++ valveEntries ++ masterEntries ++ settingsEntries ++ viewEntries ++ gameEntries ++ idCheckEntries ++ quakeEntries ++ unreal2Entries
+def allEntries : List (String × (List String → String)) := readerEntries ++ valveEntries ++ masterEntries ++ settingsEntries ++ viewEntries ++ gameEntries ++ idCheckEntries ++ realEntries ++ quakeEntries ++ unreal2Entries
 
 def runLine (line : String) : String :=
   match line.trimAscii.toString.splitOn " " with
